@@ -142,8 +142,8 @@ SlowErr(l) == IF l.i = MaxRetries - 1 THEN Done(l, "err") ELSE EnterSlow([l EXCE
 FinalMeta(l) ==
   LET m == l.meta IN
   IF l.opk = "ab" THEN m
-  ELSE IF l.opk = "at" THEN [mo |-> m.mo, ms |-> m.ms, po |-> Align(m.mo, l.ta), ps |-> l.ts]
-  ELSE LET po2 == Align(m.mo, l.ta) IN [mo |-> m.mo, ms |-> m.ms, po |-> po2, ps |-> m.mo + m.ms - po2]
+  ELSE IF l.opk = "at" THEN [mo |-> m.mo, ms |-> m.ms, po |-> Align(m.po, l.ta), ps |-> l.ts]
+  ELSE LET po2 == Align(m.po, l.ta) IN [mo |-> m.mo, ms |-> m.ms, po |-> po2, ps |-> m.po + m.ps - po2]
 
 \* list_insert(off, size): try_new_segment then the insert loop; returns to l.ret
 EnterInsert(l, off, size, r) ==
@@ -292,7 +292,7 @@ StartOf(t, op) ==
   ELSE IF op.k = "discard" THEN Goto([L0 EXCEPT !.opk = "discard"], "dis.load_sent")
   ELSE IF op.k = "fill" THEN Goto([L0 EXCEPT !.opk = "fill", !.h = op.h], "user.fill")
   ELSE IF op.k = "verify" THEN Goto([L0 EXCEPT !.opk = "verify", !.h = op.h], "user.verify")
-  ELSE Goto([L0 EXCEPT !.opk = "write", !.h = op.h, !.v = op.v, !.at = op.at], "user.write")
+  ELSE Goto([L0 EXCEPT !.opk = "write", !.h = op.h, !.v = W(op.vw[1], op.vw[2]), !.at = op.at], "user.write")
 
 \* skip over ops that need no step
 RECURSIVE SkipFrom(_, _, _)
@@ -334,10 +334,10 @@ Step(t) ==
              /\ loc' = [loc EXCEPT ![t] = L0]
              /\ IF c.loc.res = "ok"
                 THEN LET id == NextOwnId(t) m == c.loc.meta IN
-                     /\ hs' = (id :> [mo |-> m.mo, ms |-> m.ms, po |-> m.po, ps |-> m.ps, pat |-> 0, t |-> t]) @@ hs
+                     /\ hs' = (id :> [mo |-> m.mo, ms |-> m.ms, po |-> m.po, ps |-> m.ps, pat |-> 0, t |-> t, wat |-> 0, wv |-> W0]) @@ hs
                      /\ live' = live1 \cup {id}
                 ELSE IF a.kind = "fill" THEN hs' = [hs EXCEPT ![a.exp].pat = PatOf(a.exp)] /\ live' = live1
-                ELSE IF a.kind = "write" THEN hs' = [hs EXCEPT ![a.exp].pat = -1] /\ live' = live1
+                ELSE IF a.kind = "write" THEN hs' = [hs EXCEPT ![a.exp].pat = -1, ![a.exp].wat = b.loc.at, ![a.exp].wv = a.new] /\ live' = live1
                 ELSE hs' = hs /\ live' = live1
              /\ ip' = [ip EXCEPT ![t] = SkipFrom(t, ip[t] + 1, live')]
         ELSE /\ pc' = [pc EXCEPT ![t] = c.pc]
@@ -361,7 +361,10 @@ FairSpec == Spec /\ \A t \in Threads : WF_vars(Step(t))
 \* C02
 LiveDisjoint == \A a, b \in live : a # b => Disjoint(Acc(hs[a]), Acc(hs[b]))
 LiveInBounds == \A a \in live : hs[a].ps = 0 \/ (DataOff <= hs[a].po /\ hs[a].po + hs[a].ps <= Cap)
-LiveIntact == \A a \in live : hs[a].pat > 0 => \A i \in hs[a].po..(hs[a].po + hs[a].ps - 1) : mem[i] = hs[a].pat
+LiveIntact == \A a \in live :
+                 /\ hs[a].pat > 0 => \A i \in hs[a].po..(hs[a].po + hs[a].ps - 1) : mem[i] = hs[a].pat
+                 \* a handle into which its owner wrote a word still holds that word
+                 /\ (hs[a].pat = -1 /\ (hs[a].po + hs[a].wat) % 8 = 0) => WordAt(mem, hs[a].po + hs[a].wat) = hs[a].wv
 NoOutOfBounds == \A t \in Threads : pc[t] # "oob"
 \* C07
 Termination == <>AllDone
